@@ -56,6 +56,7 @@ PARTIAL = [
     "ray: the status / coincidence theorems assume the exact square root (m*m = |d1 x d2|^2) and compare squared distances; the effect of the rounded sqrt (points differ by rounding, hence the tolerance) is only observed by the correspondence / oracle",
     "voxelize: the model takes the bounding box and the evaluated points of the object as inputs (surface evaluation is C01, bounding box C18); termination of frange is proved under an explicit bound N with stop - start <= N*step + step/2 (and for Archimedean fields); the exact value list of frange for an arbitrary stop value is frange_values",
     "F-20a: generate_voxel_grid(use_cubes=True) on a flat bounding box does not terminate (voxelGrid_cubes_flat_refutes_termination); coverage theorems therefore assume the grid was returned",
+    "the span-index-free support characterisation of the Cox-de Boor functions that the find_ctrlpts work left open is now C03 coxDeBoor_support (every u, every index: non-zero iff U_i <= u < U_{i+p+1} and (U_i < u or U_{i+p} <= u)); no find_ctrlpts corollary in span-free form was added here (findCtrlpts_active_at_any_parameter remains the statement at knots)",
 ]
 ASSUMPTIONS = [
     "ray: squared distance of the two evaluated points is not within relative 2^-50 of tol^2 (verified per case by the oracle)",
